@@ -12,6 +12,28 @@ fn main() {
         eprintln!("usage: pv <ID> <quick|thorough> --seed N --build TAG --out FILE [--scale F] [--budget-s S] [--known FILE] [--replay FILE]");
         std::process::exit(2);
     }
+    if args[1] == "dbg" {
+        // pv dbg <file.par> <k> [inputs...]
+        let text = std::fs::read_to_string(&args[2]).unwrap();
+        let k: usize = args[3].parse().unwrap();
+        match pv::inst::build(&text, k, &pv::inst::GenCfg::default()) {
+            Err(e) => println!("build error {e:?}"),
+            Ok(b) => {
+                if std::env::var("DUMP").is_ok() {
+                    println!("{}", b.source);
+                }
+                println!("lr={} nts={:?} max_k={} start={} conflicts={}", b.is_lr, b.tables.non_terminals, b.tables.max_k, b.tables.start_index, b.resolved_conflicts);
+                for a in &b.tables.automata { println!("  dfa {:?}", a); }
+                for inp in &args[4..] {
+                    for rec in [true, false] {
+                        let o = pv::run::parse(&b, inp, &pv::run::Opts { recovery: rec, ..Default::default() });
+                        println!("{inp:?} rec={rec} ok={} err={:?} panic={:?} actions={:?}", o.ok, o.err, o.panic, o.actions.iter().map(|a| a.prod).collect::<Vec<_>>());
+                    }
+                }
+            }
+        }
+        return;
+    }
     let prop = args[1].clone();
     let tier = if args[2] == "thorough" { Tier::Thorough } else { Tier::Quick };
     let seed: u64 = arg(&args, "--seed").and_then(|s| s.parse().ok()).unwrap_or(1);
